@@ -29,7 +29,7 @@ NPROC = max(1, min(16, os.cpu_count() or 4))
 
 SAN_FLAGS = ["-O1", "-g", "-fsanitize=address,undefined", "-fno-sanitize-recover=all",
              "-fno-omit-frame-pointer"]
-BASE_FLAGS = ["-std=gnu11", "-D_GNU_SOURCE", "-DGP_PEDANTIC", "-DLIBGPC_VERIF",
+BASE_FLAGS = ["-std=gnu11", "-D_GNU_SOURCE", "-DGP_PEDANTIC",
               "-I" + os.path.join(REPO, "include"), "-I" + os.path.join(REPO, "src"),
               "-I" + os.path.join(ROOT, "harness"), "-w"]
 ALLOWED_AXIOMS = {"propext", "Classical.choice", "Quot.sound"}
